@@ -50,9 +50,10 @@ def own_library(name, lang, wraps, options=None, fmt=None, namespace=None, patte
         fs += [pooled, make] if pattern_first else [make, pooled]
         fs += [F("copy", {"kind": "cls_val", "cls": K}, [P("flag", "val", "int")]),
                F("use", "int", [P("arg", "cls_cptr", cls=K)])]
-        fs += [F("sval", "str_val", [P("a", "val", "int")]),
-               F("sown", {"kind": "str_ptr_own"}, [P("a", "val", "int")]),
-               F("scref", "str_cref", [P("a", "val", "int")]),
+        # exact result lengths (0 included: zero-length results take their own paths in the copy helpers)
+        fs += [F("sval", "str_val", [P("n", "val", "int", role="outlen")]),
+               F("sown", {"kind": "str_ptr_own"}, [P("n", "val", "int", role="outlen")]),
+               F("scref", "str_cref", [P("n", "val", "int", role="outlen")]),
                F("vret", {"kind": "vec_val", "T": "int"}, [P("a", "val", "int")]),
                F("vretd", {"kind": "vec_val", "T": "double"}, [P("a", "val", "int")]),
                F("tstr", "int", [P("s", "str_cref")]),
@@ -62,7 +63,7 @@ def own_library(name, lang, wraps, options=None, fmt=None, namespace=None, patte
                F("tvec", "int", [P("v", "vec_in", "int")]),
                F("tvout", "void", [P("v", "vec_out", "int")]),
                F("tvio", "void", [P("v", "vec_inout", "double")])]
-    fs += [F("cres", "cstr", [P("a", "val", "int")]),
+    fs += [F("cres", "cstr", [P("n", "val", "int", role="outlen")]),
            F("tcstr", "int", [P("s", "cstr_in")]),
            F("tcout", "void", [P("s", "cstr_out", charlen=12)]),
            F("tcio", "void", [P("s", "cstr_inout")])]
@@ -97,6 +98,26 @@ def own_library(name, lang, wraps, options=None, fmt=None, namespace=None, patte
            "wraps": list(wraps), "patterns": {"pool_put": "vf_pool_put(ptr);\n", "arr_put": "vf_arr_put(ptr);\n"}}
     libs.assign_names(lib)
     return lib
+
+
+def single_declaration_libraries():
+    """Each ownership declaration alone (plus the class it needs), per language / interface flavour / wrapper set:
+    compile-only workload for C05 (a helper or header that only a neighbour pulls in hides a missing dependency)."""
+    out = []
+    k = 0
+    for lang, wraps, cfi in (("c++", ("c", "fortran"), False), ("c++", ("c", "fortran"), True), ("c", ("c", "fortran"), False),
+                             ("c", ("c", "fortran"), True), ("c++", ("python",), False)):
+        full = own_library("ownx", lang, wraps, options={"F_CFI": cfi})
+        frees = [f for f in full["functions"] if not f.get("cls")]
+        for f in frees:
+            k += 1
+            lib = copy.deepcopy(full)
+            lib["name"] = "o%d" % k
+            needs_cls = f["ret"]["kind"].startswith("cls") or any(p["kind"] == "cls_cptr" for p in f["params"])
+            lib["functions"] = [g for g in lib["functions"] if (g.get("cls") and needs_cls) or g["name"] == f["name"]]
+            libs.assign_names(lib)
+            out.append((lib, {"ownership_declaration": ir.func_decl(f), "language": lang, "F_CFI": cfi, "wraps": list(wraps)}))
+    return out
 
 
 def fidx(lib, name, cls=None):
@@ -159,6 +180,47 @@ def make_history(lib, r, target, n_ops):
         arr_fns = []
     if target == "python":
         misc = [n for n in misc if c03.py_callable(lib["functions"][fidx(lib, n)])]
+    def do_misc(fn, n=None):
+        f = lib["functions"][fidx(lib, fn)]
+        args = {}
+        for p in f["params"]:
+            if p["kind"] in ir.IN_KINDS and p["kind"] != "implied":
+                k = p["kind"]
+                if p.get("role") == "outlen":
+                    args[p["name"]] = n if n is not None else r.choice([0, 0, 1, 7, 40, -1 if f["ret"]["kind"] == "cstr" and target == "fortran" else 3])
+                elif k in ("val",):
+                    args[p["name"]] = r.choice(libs.battery(p["T"]))
+                elif k in ("vec_in", "vec_inout", "arr_in", "arr_inout"):
+                    b = libs.battery(p["T"])
+                    args[p["name"]] = [r.choice(b) for _ in range(r.choice([0, 1, 3, 7]))]
+                else:
+                    args[p["name"]] = r.choice(libs.STR_BATTERY)
+        if f["ret"]["kind"] == "str_ptr_own":
+            st["nblk"] += 1                  # the library registers the string it hands over (released inside the call)
+        add({"op": "misc", "fn": fn, "args": args})
+
+    def do_arr(fn):
+        f = lib["functions"][fidx(lib, fn)]
+        rr_ = f["ret"]
+        seed = r.choice(libs.battery("int"))
+        op = {"op": "arr", "fn": fn, "seed": seed}
+        held = rr_.get("owner") == "caller" and rr_["deref"] == "pointer" and target == "fortran"
+        fr = []
+        if rr_.get("owner") == "caller":
+            free_c = [c for c in CRV if not crv[c]]
+            if held and not free_c:
+                return
+            blk = st["nblk"]
+            st["nblk"] += 1
+            if held:
+                c = r.choice(free_c)
+                crv[c] = {"blk": blk, "pattern": bool(rr_.get("free_pattern"))}
+                op["crv"] = c
+                st["blocks"] += 1
+            elif rr_.get("free_pattern"):
+                fr = [("arr_put", blk)]       # released inside the call, through the pattern
+        add(op, free=fr)
+
     for _ in range(n_ops):
         choices = []
         free_h = [h for h in H if handle[h] is None]
@@ -242,27 +304,7 @@ def make_history(lib, r, target, n_ops):
                 handle[h] = None
                 o["refs"].clear()
         elif ch == "arr":
-            fn = r.choice(arr_fns)
-            f = lib["functions"][fidx(lib, fn)]
-            rr_ = f["ret"]
-            seed = r.choice(libs.battery("int"))
-            op = {"op": "arr", "fn": fn, "seed": seed}
-            held = rr_.get("owner") == "caller" and rr_["deref"] == "pointer" and target == "fortran"
-            fr = []
-            if rr_.get("owner") == "caller":
-                free_c = [c for c in CRV if not crv[c]]
-                if held and not free_c:
-                    continue
-                blk = st["nblk"]
-                st["nblk"] += 1
-                if held:
-                    c = r.choice(free_c)
-                    crv[c] = {"blk": blk, "pattern": bool(rr_.get("free_pattern"))}
-                    op["crv"] = c
-                    st["blocks"] += 1
-                elif rr_.get("free_pattern"):
-                    fr = [("arr_put", blk)]       # released inside the call, through the pattern
-            add(op, free=fr)
+            do_arr(r.choice(arr_fns))
         elif ch == "crvdel":
             c = r.choice([c for c in CRV if crv[c]])
             st["blocks"] -= 1
@@ -273,22 +315,19 @@ def make_history(lib, r, target, n_ops):
             c = r.choice([c for c in CRV if crv[c] is False])
             add({"op": "crvdel", "crv": c, "again": True})
         else:
-            fn = r.choice(misc)
-            f = lib["functions"][fidx(lib, fn)]
-            args = {}
-            for p in f["params"]:
-                if p["kind"] in ir.IN_KINDS and p["kind"] != "implied":
-                    k = p["kind"]
-                    if k in ("val",):
-                        args[p["name"]] = r.choice(libs.battery(p["T"]))
-                    elif k in ("vec_in", "vec_inout", "arr_in", "arr_inout"):
-                        b = libs.battery(p["T"])
-                        args[p["name"]] = [r.choice(b) for _ in range(r.choice([0, 1, 3, 7]))]
-                    else:
-                        args[p["name"]] = r.choice(libs.STR_BATTERY)
-            if f["ret"]["kind"] == "str_ptr_own":
-                st["nblk"] += 1                  # the library registers the string it hands over (released inside the call)
-            add({"op": "misc", "fn": fn, "args": args})
+            do_misc(r.choice(misc))
+    # every declaration of the library is exercised at least once per history; results of zero and non-zero length
+    called = {s_.get("fn") for s_ in steps}
+    for fn in misc:
+        f = lib["functions"][fidx(lib, fn)]
+        if any(p.get("role") == "outlen" for p in f["params"]):
+            do_misc(fn, 0)
+            do_misc(fn, 9)
+        elif fn not in called:
+            do_misc(fn)
+    for fn in arr_fns:
+        if fn not in called:
+            do_arr(fn)
     # wind down: release everything the caller still owns (a correct caller does)
     for c in CRV:
         if crv[c]:
@@ -611,8 +650,8 @@ def _run(lib, target, steps, res):
     try:
         if rr.get("exc") or rr.get("exit") != 0:
             e = rr.get("exc") or {}
-            res["violations"].append({"mech": "shroud-rejects-admitted-library:%s:%s" % (e.get("type"), e.get("where")),
-                                      "detail": "%s: %s %s %s" % (lib["name"], e.get("type"), (e.get("msg") or "")[:600], rr.get("exit_msg", ""))})
+            _k, _t = engine.reject_mech(rr)
+            res["violations"].append({"mech": "shroud-rejects-admitted-library:" + _k, "detail": "%s: %s" % (lib["name"], _t)})
             return res
         out = os.path.join(cwd, "out")
         env = dict(os.environ)
